@@ -500,7 +500,7 @@ func (s *Store) getPrimaryKeyData(blk types.Block, indexKey []byte) ([]byte, []b
 		// index entry regardless of which key in indexes. It is not safe to
 		// put this offset onto the free list, since it may be an invalid
 		// location in the primary.
-		if _, err = s.index.Remove(indexKey); err != nil {
+		if _, err = s.index.RemoveIfBlock(indexKey, blk); err != nil {
 			return nil, nil, fmt.Errorf("error removing unusable index: %w", err)
 		}
 		return nil, nil, nil
@@ -515,7 +515,7 @@ func (s *Store) getPrimaryKeyData(blk types.Block, indexKey []byte) ([]byte, []b
 		// index. It is not safe to put this offset onto the free list, since
 		// it may be an invalid location in the primary.
 		log.Errorw("Bad key stored in primary or bad index, removing index", "err", err)
-		if _, err = s.index.Remove(indexKey); err != nil {
+		if _, err = s.index.RemoveIfBlock(indexKey, blk); err != nil {
 			return nil, nil, fmt.Errorf("error removing unusable index: %w", err)
 		}
 		return nil, nil, nil
